@@ -381,7 +381,9 @@ func init() {
 	}
 }
 
-func c12in(code, base byte) bool { return c12mask[code]&c12mask[base] != 0 && c12mask[base]&^c12mask[code] == 0 }
+func c12in(code, base byte) bool {
+	return c12mask[code]&c12mask[base] != 0 && c12mask[base]&^c12mask[code] == 0
+}
 
 // c12mism counts the positions of text[pos:pos+len(pat)] outside the IUPAC class of pat.
 func c12mism(pat, text string, pos int) int {
@@ -582,6 +584,12 @@ type c12Case struct {
 	Cut    bool     `json:"cut,omitempty"`
 	From   int      `json:"from,omitempty"`
 	To     int      `json:"to,omitempty"`
+	// class "history": the reads of Hist go one after the other (OneSlice: in one call) through ONE library
+	// read for the occasion; every read must give what it gives alone on a library of its own
+	Hist     []c12Case `json:"hist,omitempty"`
+	OneSlice bool      `json:"one_slice,omitempty"`
+	// class "params": the @param lines put in front of the two-marker base sheet
+	Params [][]string `json:"params,omitempty"`
 }
 
 func c12filler(n int, delim byte, pre bool) string {
@@ -678,6 +686,8 @@ type c12H struct {
 	sheets map[string]*c12Sheet
 	libs   map[string]obiseq.SeqSliceWorker
 	nrun   int
+	// records of a read alone on a fresh library, per sheet|format|read (nil: unusable)
+	aloneCache map[string][]string
 }
 
 func (h *c12H) worker(sh *c12Sheet, format string) obiseq.SeqSliceWorker {
@@ -685,6 +695,15 @@ func (h *c12H) worker(sh *c12Sheet, format string) obiseq.SeqSliceWorker {
 	if w, ok := h.libs[key]; ok {
 		return w
 	}
+	w := h.build(sh, format, true)
+	h.libs[key] = w
+	return w
+}
+
+// build reads the sheet with the real reader and compiles a worker on a library of its own. report: the
+// parsed and compiled library is compared with the declared parameters (done once per sheet and format; the
+// libraries of the history class are built silently).
+func (h *c12H) build(sh *c12Sheet, format string, report bool) obiseq.SeqSliceWorker {
 	var lib *obingslibrary.NGSLibrary
 	var err error
 	fatal := func() (msg string) {
@@ -707,42 +726,81 @@ func (h *c12H) worker(sh *c12Sheet, format string) obiseq.SeqSliceWorker {
 	if format == "csv-direct" {
 		site = "ReadCSVNGSFilter"
 	}
+	site += "/" + format
 	if fatal != "" || err != nil || lib == nil {
-		h.r.Violate(site+"/"+format+"/rejects-valid-sheet", fmt.Sprintf("sheet %s (%s): %v %v", sh.Name, format, fatal, err), nil)
-		h.libs[key] = nil
+		if sh.Shared {
+			if report {
+				h.r.Count("sheet_refused:shared-primers", 1) // a legitimate answer to such a sheet
+			}
+			return nil
+		}
+		if report {
+			h.r.Violate(site+"/rejects-valid-sheet", fmt.Sprintf("sheet %s (%s): %v %v\n%s", sh.Name, format, fatal, err, sh.csvText()), nil)
+		}
 		return nil
+	}
+	var opts []obingslibrary.WithOption
+	if sh.Opt != nil {
+		// as IExtractBarcode passes them
+		opts = append(opts, obingslibrary.OptionAllowedMismatches(sh.Opt.E), obingslibrary.OptionAllowedIndel(sh.Opt.Indels))
+		site = "ExtractMultiBarcodeSliceWorker/option:" + strings.TrimPrefix(sh.Opt.suffix(), "+")
 	}
 	var w obiseq.SeqSliceWorker
 	func() {
 		defer func() {
 			if x := recover(); x != nil {
-				h.r.Violate("ExtractMultiBarcodeSliceWorker/panic", fmt.Sprintf("sheet %s (%s): %v", sh.Name, format, x), nil)
+				if report {
+					h.r.Violate("ExtractMultiBarcodeSliceWorker/panic", fmt.Sprintf("sheet %s (%s): %v", sh.Name, format, x), nil)
+				}
+				w = nil
 			}
 		}()
-		w = lib.ExtractMultiBarcodeSliceWorker()
+		w = lib.ExtractMultiBarcodeSliceWorker(opts...)
 	}()
 	if w == nil {
-		h.libs[key] = nil
 		return nil
 	}
 	// the parsed and compiled library must carry the declared markers and parameters
-	bad := func(field string, got, want any) {
-		h.r.Violate(site+"/"+format+"/wrong-"+field, fmt.Sprintf("sheet %s (%s): %s = %v, declared %v\n%s", sh.Name, format, field, got, want, sh.csvText()), nil)
+	diffs := c12diffFields(lib, sh)
+	wrong := len(diffs)
+	if report {
+		for _, d := range diffs {
+			h.r.Violate(site+"/wrong-"+d.field, fmt.Sprintf("sheet %s (%s): marker %d: %s = %v, declared %v\n%s", sh.Name, format, d.mi, d.field, d.got, d.want, sh.csvText()), c12replayOf(sh, format))
+		}
 	}
+	if report {
+		h.r.Count("libraries_built", 1)
+	}
+	if wrong > 0 && (sh.Opt != nil || sh.NoEnum) {
+		// the option / parameter did not reach the library: that is the report; demultiplexing with another
+		// configuration than the declared one would only repeat it under many keys
+		return nil
+	}
+	return w
+}
+
+type c12fieldDiff struct {
+	mi        int
+	field     string
+	got, want any
+}
+
+// c12diffFields compares the parsed and compiled library with the sheet as a Go value.
+func c12diffFields(lib *obingslibrary.NGSLibrary, sh *c12Sheet) (diffs []c12fieldDiff) {
 	if len(lib.Markers) != len(sh.Markers) {
-		bad("marker-count", len(lib.Markers), len(sh.Markers))
+		diffs = append(diffs, c12fieldDiff{-1, "marker-count", len(lib.Markers), len(sh.Markers)})
 	}
 	for i := range sh.Markers {
 		m := &sh.Markers[i]
 		sem := sh.Sem[i]
 		mk, ok := lib.Markers[obingslibrary.PrimerPair{Forward: m.F, Reverse: m.R}]
 		if !ok {
-			bad("marker-missing", "absent", m.F+"/"+m.R)
+			diffs = append(diffs, c12fieldDiff{i, "marker-missing", "absent", m.F + "/" + m.R})
 			continue
 		}
 		chk := func(field string, got, want any) {
 			if got != want {
-				bad(field, got, want)
+				diffs = append(diffs, c12fieldDiff{i, field, got, want})
 			}
 		}
 		chk("forward-tag-length", mk.Forward_tag_length, len(m.Samples[0].TagF))
@@ -760,9 +818,15 @@ func (h *c12H) worker(sh *c12Sheet, format string) obiseq.SeqSliceWorker {
 		chk("forward-tag-indels", mk.Forward_tag_indels, sem.TagIndF)
 		chk("reverse-tag-indels", mk.Reverse_tag_indels, sem.TagIndR)
 	}
-	h.r.Count("libraries_built", 1)
-	h.libs[key] = w
-	return w
+	return
+}
+
+// c12replayOf: a replayable case that rebuilds the library of a sheet (class "library").
+func c12replayOf(sh *c12Sheet, format string) *c12Case {
+	if sh.NoEnum {
+		return &c12Case{Class: "params", Format: format, Params: sh.Params}
+	}
+	return &c12Case{Class: "library", Sheet: sh.Name, Format: format}
 }
 
 func c12ann(s *obiseq.BioSequence, key string) (string, bool) {
@@ -780,10 +844,10 @@ func c12ann(s *obiseq.BioSequence, key string) (string, bool) {
 // ambiguous = some designed in-budget site lies on a primer matched with indels whose first or last
 // position is substituted (substitution and indel alignments tie: location not defined).
 func c12clean(sh *c12Sheet, b *c12built) (clean bool, complete []bool, ambiguous bool, valid []bool) {
+	// sites are identified by the pattern they match (not by the marker): markers may share a primer
 	type k struct {
-		kind string
-		m    int
-		pos  int
+		pat string
+		pos int
 	}
 	designed := map[k]bool{}
 	valid = make([]bool, len(b.sites))
@@ -813,7 +877,7 @@ func c12clean(sh *c12Sheet, b *c12built) (clean bool, complete []bool, ambiguous
 		p := pat(s.kind, m)
 		if c12mism(p, b.read, s.pos) <= bud {
 			valid[i] = true
-			designed[k{s.kind, s.m, s.pos}] = true
+			designed[k{p, s.pos}] = true
 			if ind && (!c12in(p[0], b.read[s.pos]) || !c12in(p[len(p)-1], b.read[s.pos+s.n-1])) {
 				ambiguous = true
 			}
@@ -829,13 +893,13 @@ func c12clean(sh *c12Sheet, b *c12built) (clean bool, complete []bool, ambiguous
 				found := c12subSites(p, b.read, bud)
 				n := 0
 				for _, pos := range found {
-					if !designed[k{kind, mi, pos}] {
+					if !designed[k{p, pos}] {
 						clean = false
 					}
 					n++
 				}
 				for d := range designed {
-					if d.kind == kind && d.m == mi {
+					if d.pat == p {
 						n--
 					}
 				}
@@ -846,7 +910,7 @@ func c12clean(sh *c12Sheet, b *c12built) (clean bool, complete []bool, ambiguous
 				for _, e := range c12editEnds(p, b.read, bud) {
 					near := false
 					for d := range designed {
-						if d.kind == kind && d.m == mi {
+						if d.pat == p {
 							de := d.pos + len(p)
 							if e >= de-bud && e <= de+bud {
 								near = true
@@ -882,17 +946,37 @@ func (h *c12H) violate(key, msg string, sh *c12Sheet, c *c12Case, read string, o
 
 // eval runs one case on the implementation and applies both clauses.
 func (h *c12H) eval(c *c12Case) {
+	switch c.Class {
+	case "history":
+		h.evalHistory(c)
+		return
+	case "params":
+		h.evalParams(c)
+		return
+	}
 	sh := h.sheets[c.Sheet]
 	if sh == nil {
 		panic("unknown sheet " + c.Sheet)
 	}
 	w := h.worker(sh, c.Format)
-	if w == nil {
+	if w == nil || c.Class == "library" {
 		return
 	}
+	h.evalOn(c, w)
+}
+
+// c12canon: a record as a comparable string (sequence and every annotation).
+func c12canon(o *obiseq.BioSequence) string {
+	return fmt.Sprintf("%s %v", o.String(), o.Annotations())
+}
+
+// evalOn runs the read of one case through the given worker, applies both clauses and returns the records
+// in canonical form (ok = the worker answered).
+func (h *c12H) evalOn(c *c12Case, w obiseq.SeqSliceWorker) (canon []string, ok bool) {
+	sh := h.sheets[c.Sheet]
 	b := c12build(sh, c)
 	if len(b.read) == 0 {
-		return
+		return nil, false
 	}
 	h.nrun++
 	if h.nrun%20000 == 0 {
@@ -907,34 +991,54 @@ func (h *c12H) eval(c *c12Case) {
 	func() {
 		defer func() {
 			if x := recover(); x != nil {
-				crashed = fmt.Sprint(x)
-				if e, ok := x.(*log.Entry); ok {
-					crashed = "log.Panic: " + e.Message
-				}
+				crashed = c12crashText(x)
 			}
 		}()
 		out, err = w(obiseq.BioSequenceSlice{obiseq.NewBioSequence("read", []byte(b.read), "")})
 	}()
 	if crashed != "" || err != nil {
-		msg := fmt.Sprintf("%s %v", crashed, err)
-		class := "other"
-		switch {
-		case strings.Contains(msg, "must be shorter than sequence"):
-			class = "LocatePattern-window-not-longer-than-primer"
-		case strings.Contains(msg, "out of range") || strings.Contains(msg, "out of bounds"):
-			class = "index-out-of-range"
-		case strings.Contains(msg, "c12exit"):
-			class = "log.Fatal"
-		}
-		h.violate("ExtractMultiBarcode/panic:"+class, "the read makes the worker panic / exit instead of being returned: "+msg, sh, c, b.read, nil)
-		return
+		h.crash(sh, c, b.read, crashed, err)
+		return nil, false
 	}
 	h.r.Trans(int64(len(out)))
 	if len(out) == 0 {
 		h.violate("ExtractMultiBarcode/read-lost", "no record at all comes back", sh, c, b.read, out)
-		return
+		return nil, false
 	}
+	for _, o := range out {
+		canon = append(canon, c12canon(o))
+	}
+	h.judge(sh, c, &b, out)
+	return canon, true
+}
 
+func c12crashText(x any) string {
+	switch e := x.(type) {
+	case *log.Entry:
+		return "log.Panic: " + e.Message
+	case c12exit:
+		return "c12exit: log.Fatal called"
+	}
+	return fmt.Sprint(x)
+}
+
+func (h *c12H) crash(sh *c12Sheet, c *c12Case, read, crashed string, err error) {
+	msg := fmt.Sprintf("%s %v", crashed, err)
+	class := "other"
+	switch {
+	case strings.Contains(msg, "must be shorter than sequence"):
+		class = "LocatePattern-window-not-longer-than-primer"
+	case strings.Contains(msg, "out of range") || strings.Contains(msg, "out of bounds"):
+		class = "index-out-of-range"
+	case strings.Contains(msg, "c12exit"):
+		class = "log.Fatal"
+	}
+	h.violate("ExtractMultiBarcode/panic:"+class, "the read makes the worker panic / exit instead of being returned: "+msg, sh, c, read, nil)
+}
+
+// judge applies the safety clause to every record and the construction clause where it applies.
+func (h *c12H) judge(sh *c12Sheet, c *c12Case, bp *c12built, out obiseq.BioSequenceSlice) {
+	b := *bp
 	// ---- safety clause, every record ----
 	for _, o := range out {
 		s, hasS := c12ann(o, "sample")
@@ -1023,6 +1127,9 @@ func (h *c12H) eval(c *c12Case) {
 		want = append(want, exp{a, i})
 	}
 	pfx := "ExtractMultiBarcode/" + c.Class
+	if sh.Shared {
+		pfx += ":shared-primers"
+	}
 	indelSfx := ""
 	for _, s := range sh.Sem {
 		if s.IndelF || s.IndelR {
@@ -1180,6 +1287,9 @@ func c12inst(p string, alt bool) string {
 func c12primerVariants(p string, budget int) []string {
 	base := c12inst(p, false)
 	pos := []int{0, len(p) / 2, len(p) - 1}
+	if budget >= 3 {
+		pos = append(pos, 3) // a budget of 3 needs 4 substitutions to be exceeded
+	}
 	seen := map[string]bool{}
 	var out []string
 	add := func(s string) {
@@ -1188,10 +1298,10 @@ func c12primerVariants(p string, budget int) []string {
 			out = append(out, s)
 		}
 	}
-	for mask := 0; mask < 8; mask++ {
+	for mask := 0; mask < 1<<len(pos); mask++ {
 		n := 0
 		b := []byte(base)
-		for k := 0; k < 3; k++ {
+		for k := 0; k < len(pos); k++ {
 			if mask&(1<<k) != 0 {
 				n++
 				for _, x := range "acgt" {
@@ -1307,68 +1417,71 @@ func (h *c12H) enumerate() {
 				continue
 			}
 			// ---- chimeras: pairs and triples over a pool ----
-			var pool []c12Amp
-			for mi := range sh.Markers {
-				m := &sh.Markers[mi]
-				sem := sh.Sem[mi]
-				pfs := c12primerVariants(m.F, sem.BudF)
-				prs := c12primerVariants(m.R, sem.BudR)
-				s0, s1 := m.Samples[0], m.Samples[len(m.Samples)-1]
-				badF, badR := pfs[len(pfs)-2], prs[len(prs)-2] // budget+1 substitutions
-				okF, okR := pfs[0], prs[0]
-				if sem.BudF > 0 {
-					okF = pfs[2] // middle position substituted
-				}
-				if sem.BudR > 0 {
-					okR = prs[2]
-				}
-				unkF, unkR := "", ""
-				if m.hasF() {
-					unkF = m.ExtraF[len(m.ExtraF)-1]
-				}
-				if m.hasR() {
-					unkR = m.ExtraR[len(m.ExtraR)-1]
-				}
-				cand := []c12Amp{
-					{M: mi, TagF: s0.TagF, TagR: s0.TagR, PF: pfs[0], PR: prs[0], BC: c12barcodes[0]},
-					{M: mi, TagF: s1.TagF, TagR: s1.TagR, PF: okF, PR: okR, BC: c12barcodes[1]},
-					{M: mi, TagF: unkF, TagR: unkR, PF: pfs[0], PR: prs[0], BC: c12barcodes[0]},
-					{M: mi, TagF: s0.TagF, TagR: s0.TagR, PF: badF, PR: prs[0], BC: c12barcodes[1]},
-					{M: mi, TagF: s1.TagF, TagR: s1.TagR, PF: pfs[0], PR: badR, BC: c12barcodes[0]},
-				}
-				for _, a := range cand {
-					pool = append(pool, a)
-					a.Rev = true
-					pool = append(pool, a)
-				}
-			}
-			joints := []string{"", "ttt"}
-			for i1, a1 := range pool {
-				for i2, a2 := range pool {
-					mine := r.Mine(k)
-					k++
-					if !mine {
-						continue
+			// (not for shared primers: a lone site of one marker may pair with a site of the marker sharing the primer)
+			if !sh.Shared {
+				var pool []c12Amp
+				for mi := range sh.Markers {
+					m := &sh.Markers[mi]
+					sem := sh.Sem[mi]
+					pfs := c12primerVariants(m.F, sem.BudF)
+					prs := c12primerVariants(m.R, sem.BudR)
+					s0, s1 := m.Samples[0], m.Samples[len(m.Samples)-1]
+					badF, badR := pfs[len(pfs)-2], prs[len(prs)-2] // budget+1 substitutions
+					okF, okR := pfs[0], prs[0]
+					if sem.BudF > 0 {
+						okF = pfs[2] // middle position substituted
 					}
-					if r.Expired() {
-						return
+					if sem.BudR > 0 {
+						okR = prs[2]
 					}
-					for _, j := range joints {
-						for fl := 0; fl < 2; fl++ {
-							h.eval(&c12Case{Class: "chimera", Sheet: sh.Name, Format: format, Left: c12lefts[fl], Right: c12rights[fl],
-								Joints: []string{j}, Amps: []c12Amp{a1, a2}})
+					unkF, unkR := "", ""
+					if m.hasF() {
+						unkF = m.ExtraF[len(m.ExtraF)-1]
+					}
+					if m.hasR() {
+						unkR = m.ExtraR[len(m.ExtraR)-1]
+					}
+					cand := []c12Amp{
+						{M: mi, TagF: s0.TagF, TagR: s0.TagR, PF: pfs[0], PR: prs[0], BC: c12barcodes[0]},
+						{M: mi, TagF: s1.TagF, TagR: s1.TagR, PF: okF, PR: okR, BC: c12barcodes[1]},
+						{M: mi, TagF: unkF, TagR: unkR, PF: pfs[0], PR: prs[0], BC: c12barcodes[0]},
+						{M: mi, TagF: s0.TagF, TagR: s0.TagR, PF: badF, PR: prs[0], BC: c12barcodes[1]},
+						{M: mi, TagF: s1.TagF, TagR: s1.TagR, PF: pfs[0], PR: badR, BC: c12barcodes[0]},
+					}
+					for _, a := range cand {
+						pool = append(pool, a)
+						a.Rev = true
+						pool = append(pool, a)
+					}
+				}
+				joints := []string{"", "ttt"}
+				for i1, a1 := range pool {
+					for i2, a2 := range pool {
+						mine := r.Mine(k)
+						k++
+						if !mine {
+							continue
 						}
-					}
-					if len(pool) > 10 && !thorough && (i1%2 != i2%2) {
-						continue // quick tier, two markers: triples only from same-parity pool entries
-					}
-					for _, a3 := range pool {
+						if r.Expired() {
+							return
+						}
 						for _, j := range joints {
-							if j != "" && !thorough {
-								continue
+							for fl := 0; fl < 2; fl++ {
+								h.eval(&c12Case{Class: "chimera", Sheet: sh.Name, Format: format, Left: c12lefts[fl], Right: c12rights[fl],
+									Joints: []string{j}, Amps: []c12Amp{a1, a2}})
 							}
-							h.eval(&c12Case{Class: "chimera", Sheet: sh.Name, Format: format, Left: "", Right: "",
-								Joints: []string{j, j}, Amps: []c12Amp{a1, a2, a3}})
+						}
+						if len(pool) > 10 && !thorough && (i1%2 != i2%2) {
+							continue // quick tier, two markers: triples only from same-parity pool entries
+						}
+						for _, a3 := range pool {
+							for _, j := range joints {
+								if j != "" && !thorough {
+									continue
+								}
+								h.eval(&c12Case{Class: "chimera", Sheet: sh.Name, Format: format, Left: "", Right: "",
+									Joints: []string{j, j}, Amps: []c12Amp{a1, a2, a3}})
+							}
 						}
 					}
 				}
@@ -1402,6 +1515,507 @@ func (h *c12H) enumerate() {
 			}
 		}
 	}
+	h.enumHistories(&k)
+	h.enumParams(&k)
+}
+
+// ---------------------------------------------------------------------------------------------
+// histories: what a read gives does not depend on the reads the library has seen before
+// ---------------------------------------------------------------------------------------------
+
+// c12histPool: reads of every kind for one sheet (assigned in both orientations, undeclared pair of declared
+// tags, unknown tags, tag at one substitution, tie / extra tag, primer beyond budget, empty barcode, chimera,
+// read shorter than a primer, read without site).
+func c12histPool(sh *c12Sheet, format string) []c12Case {
+	var pool []c12Case
+	mk := func(class, l, r string, amps ...c12Amp) c12Case {
+		c := c12Case{Class: class, Sheet: sh.Name, Format: format, Left: l, Right: r, Amps: amps}
+		if len(amps) > 1 {
+			c.Joints = []string{"ttt", "ttt"}[:len(amps)-1]
+		}
+		return c
+	}
+	for mi := range sh.Markers {
+		m := &sh.Markers[mi]
+		sem := sh.Sem[mi]
+		pfs := c12primerVariants(m.F, sem.BudF)
+		prs := c12primerVariants(m.R, sem.BudR)
+		s0, s1 := m.Samples[0], m.Samples[len(m.Samples)-1]
+		badF := pfs[len(pfs)-2]
+		okF, okR := pfs[0], prs[0]
+		if sem.BudF > 0 {
+			okF = pfs[2]
+		}
+		if sem.BudR > 0 {
+			okR = prs[2]
+		}
+		unkF, unkR, tieF, nearF := "", "", "", ""
+		if m.hasF() {
+			unkF, tieF = m.ExtraF[len(m.ExtraF)-1], m.ExtraF[0]
+			nearF = c12tagVariants(c12distinct(m, true), nil, false)[len(c12distinct(m, true))]
+		}
+		if m.hasR() {
+			unkR = m.ExtraR[len(m.ExtraR)-1]
+		}
+		// a pair of declared tags that is not a declared pair (else the unknown pair again)
+		undF, undR := unkF, unkR
+	search:
+		for _, f := range c12distinct(m, true) {
+			for _, r := range c12distinct(m, false) {
+				declared := false
+				for _, smp := range m.Samples {
+					if smp.TagF == f && smp.TagR == r {
+						declared = true
+					}
+				}
+				if !declared {
+					undF, undR = f, r
+					break search
+				}
+			}
+		}
+		good := c12Amp{M: mi, TagF: s0.TagF, TagR: s0.TagR, PF: pfs[0], PR: prs[0], BC: c12barcodes[0]}
+		unk := c12Amp{M: mi, TagF: unkF, TagR: unkR, PF: pfs[0], PR: prs[0], BC: c12barcodes[0]}
+		pool = append(pool,
+			mk("single", "tat", "gga", good),
+			mk("single", "", "", c12Amp{M: mi, TagF: s1.TagF, TagR: s1.TagR, PF: okF, PR: okR, BC: c12barcodes[1], Rev: true}),
+			mk("single", "tat", "", unk),
+			mk("single", "", "gga", c12Amp{M: mi, TagF: undF, TagR: undR, PF: pfs[0], PR: prs[0], BC: c12barcodes[1], Rev: true}),
+			mk("single", "tat", "gga", c12Amp{M: mi, TagF: nearF, TagR: s0.TagR, PF: pfs[0], PR: okR, BC: c12barcodes[0], Rev: true}),
+			mk("single", "tat", "gga", c12Amp{M: mi, TagF: tieF, TagR: s1.TagR, PF: okF, PR: prs[0], BC: c12barcodes[1]}),
+			mk("single", "tat", "gga", c12Amp{M: mi, TagF: s0.TagF, TagR: s0.TagR, PF: badF, PR: prs[0], BC: c12barcodes[1]}),
+			mk("single", "tat", "gga", c12Amp{M: mi, TagF: s1.TagF, TagR: s1.TagR, PF: pfs[0], PR: prs[0], BC: ""}),
+			mk("chimera", "", "", good, unk),
+		)
+		short := mk("truncated", "tat", "gga", good)
+		short.Cut, short.From, short.To = true, 3, 3+len(s0.TagF)+sem.SpF+9
+		pool = append(pool, short)
+	}
+	nosite := mk("truncated", "acgtacgtacgtaaccggtt", "", c12Amp{M: 0, PF: "", PR: "", BC: ""})
+	nosite.Cut, nosite.From, nosite.To = true, 0, 20
+	pool = append(pool, nosite)
+	return pool
+}
+
+func (h *c12H) enumHistories(k *int) {
+	r := h.r
+	thorough := verifkit.Thorough()
+	names := make([]string, 0, len(h.sheets))
+	for n, sh := range h.sheets {
+		if !sh.Shared && (sh.Opt == nil || n == "S1-basic+e1+indels") {
+			names = append(names, n)
+		}
+	}
+	sort.Strings(names)
+	for _, name := range names {
+		sh := h.sheets[name]
+		formats := []string{"csv"}
+		if thorough && sh.OldOK && sh.Opt == nil {
+			formats = []string{"old", "csv"}
+		}
+		for _, format := range formats {
+			pool := c12histPool(sh, format)
+			for i1 := range pool {
+				for i2 := -1; i2 < len(pool); i2++ {
+					mine := r.Mine(*k)
+					*k++
+					if !mine {
+						continue
+					}
+					if r.Expired() {
+						return
+					}
+					if i2 < 0 {
+						h.eval(&c12Case{Class: "history", Sheet: sh.Name, Format: format, Hist: []c12Case{pool[i1]}})
+						continue
+					}
+					for _, one := range []bool{false, true} {
+						h.eval(&c12Case{Class: "history", Sheet: sh.Name, Format: format, OneSlice: one, Hist: []c12Case{pool[i1], pool[i2]}})
+					}
+					if len(sh.Markers) > 1 && !thorough && i1 != i2 && pool[i1].Amps[0].M == pool[i2].Amps[0].M {
+						continue // quick tier, two markers: triples start with two reads of different markers or twice the same read
+					}
+					for i3 := range pool {
+						h.eval(&c12Case{Class: "history", Sheet: sh.Name, Format: format, Hist: []c12Case{pool[i1], pool[i2], pool[i3]}})
+					}
+				}
+			}
+		}
+	}
+}
+
+// alone: the records of a read on a library that has seen nothing else (computed on two libraries: a read
+// whose result is not even reproducible alone is left out and counted).
+func (h *c12H) alone(sh *c12Sheet, c *c12Case) ([]string, bool) {
+	b := c12build(sh, c)
+	key := sh.Name + "|" + c.Format + "|" + b.read
+	if v, ok := h.aloneCache[key]; ok {
+		return v, v != nil
+	}
+	var ref []string
+	for try := 0; try < 2; try++ {
+		w := h.build(sh, c.Format, false)
+		if w == nil {
+			h.aloneCache[key] = nil
+			return nil, false
+		}
+		got, ok := h.evalOn(c, w)
+		if !ok {
+			h.aloneCache[key] = nil
+			return nil, false
+		}
+		if try == 0 {
+			ref = got
+		} else if strings.Join(ref, "\n") != strings.Join(got, "\n") {
+			h.r.Count("history:read-not-reproducible-alone", 1)
+			h.aloneCache[key] = nil
+			return nil, false
+		}
+	}
+	h.aloneCache[key] = ref
+	return ref, true
+}
+
+// c12recDiff names what differs between two record lists.
+func c12recDiff(got, want []string) string {
+	if len(got) != len(want) {
+		return "record-count"
+	}
+	for i := range got {
+		if got[i] == want[i] {
+			continue
+		}
+		gs, ws := strings.SplitN(got[i], " ", 2), strings.SplitN(want[i], " ", 2)
+		if gs[0] != ws[0] {
+			return "sequence"
+		}
+		// annotations are printed as map[k:v k:v ...] with sorted keys: name the first key that differs
+		gf, wf := strings.Fields(strings.TrimSuffix(strings.TrimPrefix(gs[1], "map["), "]")), strings.Fields(strings.TrimSuffix(strings.TrimPrefix(ws[1], "map["), "]"))
+		for j := 0; j < len(gf) || j < len(wf); j++ {
+			g, w := "", ""
+			if j < len(gf) {
+				g = gf[j]
+			}
+			if j < len(wf) {
+				w = wf[j]
+			}
+			if g != w {
+				name := g
+				if w != "" && (g == "" || w < g) {
+					name = w
+				}
+				if !strings.Contains(name, ":") {
+					return "annotation"
+				}
+				return "annotation:" + name[:strings.Index(name, ":")]
+			}
+		}
+		return "annotation"
+	}
+	return "nothing"
+}
+
+func (h *c12H) evalHistory(c *c12Case) {
+	sh := h.sheets[c.Sheet]
+	if sh == nil {
+		panic("unknown sheet " + c.Sheet)
+	}
+	if h.worker(sh, c.Format) == nil { // reports a sheet that cannot be read, once
+		return
+	}
+	refs := make([][]string, len(c.Hist))
+	for i := range c.Hist {
+		c.Hist[i].Sheet, c.Hist[i].Format = c.Sheet, c.Format
+		ref, ok := h.alone(sh, &c.Hist[i])
+		if !ok {
+			return
+		}
+		refs[i] = ref
+	}
+	w := h.build(sh, c.Format, false)
+	if w == nil {
+		return
+	}
+	h.r.Count("histories", 1)
+	desc := func(i int, got, want []string) string {
+		var reads []string
+		for j := range c.Hist {
+			reads = append(reads, c12build(sh, &c.Hist[j]).read)
+		}
+		d := fmt.Sprintf("sheet %s (%s): read %d of the history %v gives %v; alone on a library of its own it gives %v", sh.Name, c.Format, i, reads, got, want)
+		if len(d) > 2400 {
+			d = d[:2400] + "..."
+		}
+		return d
+	}
+	if c.OneSlice {
+		var in obiseq.BioSequenceSlice
+		var want []string
+		for i := range c.Hist {
+			in = append(in, obiseq.NewBioSequence("read", []byte(c12build(sh, &c.Hist[i]).read), ""))
+			want = append(want, refs[i]...)
+		}
+		var out obiseq.BioSequenceSlice
+		var err error
+		crashed := ""
+		func() {
+			defer func() {
+				if x := recover(); x != nil {
+					crashed = c12crashText(x)
+				}
+			}()
+			out, err = w(in)
+		}()
+		h.r.Eval(1)
+		h.r.Trans(int64(len(out)))
+		if crashed != "" || err != nil {
+			h.r.Violate("ExtractMultiBarcodeSliceWorker/slice-of-reads/panic", desc(-1, []string{crashed, fmt.Sprint(err)}, want), c)
+			return
+		}
+		var got []string
+		for _, o := range out {
+			got = append(got, c12canon(o))
+		}
+		if d := c12recDiff(got, want); d != "nothing" {
+			h.r.Violate("ExtractMultiBarcodeSliceWorker/slice-of-reads/differs-from-reads-one-by-one:"+d, desc(-1, got, want), c)
+		}
+		return
+	}
+	for i := range c.Hist {
+		got, ok := h.evalOn(&c.Hist[i], w)
+		if !ok {
+			return
+		}
+		if i == 0 {
+			continue // first read of a fresh library: that is the reference situation
+		}
+		if d := c12recDiff(got, refs[i]); d != "nothing" {
+			h.r.Count("history:dependent", 1)
+			h.r.Violate("ExtractMultiBarcode/history/result-depends-on-previous-reads:"+d, desc(i, got, refs[i]), c)
+			return
+		}
+	}
+}
+
+// ---------------------------------------------------------------------------------------------
+// the @param lines of the CSV format against their declared meaning
+// ---------------------------------------------------------------------------------------------
+
+// c12paramVocabulary: every parameter name of the CSV format in each of its forms (global, per side, per
+// primer) with values that differ from the defaults and from each other.
+func c12paramVocabulary() [][]string {
+	return [][]string{
+		{"spacer", "2"}, {"forward_spacer", "1"}, {"reverse_spacer", "3"}, {"spacer", strings.ToUpper(c12F1), "4"}, {"spacer", c12R2, "5"},
+		{"tag_delimiter", "a"}, {"forward_tag_delimiter", "C"}, {"reverse_tag_delimiter", "g"}, {"tag_delimiter", c12F2, "t"}, {"tag_delimiter", strings.ToUpper(c12R1), "c"}, {"tag_delimiter", "0"},
+		{"matching", "hamming"}, {"matching", "indel"}, {"matching", "strict"},
+		{"primer_mismatches", "1"}, {"forward_mismatches", "0"}, {"reverse_mismatches", "3"}, {"primer_mismatches", c12F1, "3"}, {"primer_mismatches", strings.ToUpper(c12R2), "0"},
+		{"tag_indels", "1"}, {"forward_tag_indels", "2"}, {"reverse_tag_indels", "3"}, {"tag_indels", c12F2, "4"}, {"tag_indels", c12R1, "5"}, {"tag_indels", "0"},
+		{"indels", "true"}, {"indels", "false"}, {"forward_indels", "true"}, {"reverse_indels", "true"}, {"forward_indels", "false"}, {"reverse_indels", "false"},
+		{"indels", c12F1, "true"}, {"indels", strings.ToUpper(c12R2), "true"}, {"indels", c12F2, "false"},
+	}
+}
+
+// c12applyParam: the declared meaning of one @param line; touched lists the (marker, field) it sets.
+func c12applyParam(markers []c12Marker, sem []c12Sem, line []string) (touched map[string]bool) {
+	touched = map[string]bool{}
+	name, vals := line[0], line[1:]
+	atoi := func(s string) int {
+		n := 0
+		fmt.Sscanf(s, "%d", &n)
+		return n
+	}
+	delim := func(s string) byte {
+		d := strings.ToLower(s)[0]
+		if d == '0' {
+			return 0
+		}
+		return d
+	}
+	// sides: which (marker, forward?) the line is about
+	type side struct {
+		mi  int
+		fwd bool
+	}
+	var sides []side
+	all := func(fwd, rev bool) {
+		for i := range markers {
+			if fwd {
+				sides = append(sides, side{i, true})
+			}
+			if rev {
+				sides = append(sides, side{i, false})
+			}
+		}
+	}
+	value := vals[len(vals)-1]
+	switch {
+	case strings.HasPrefix(name, "forward_"):
+		all(true, false)
+		name = strings.TrimPrefix(name, "forward_")
+	case strings.HasPrefix(name, "reverse_"):
+		all(false, true)
+		name = strings.TrimPrefix(name, "reverse_")
+	case len(vals) == 2:
+		pr := strings.ToLower(vals[0])
+		for i := range markers {
+			if markers[i].F == pr {
+				sides = append(sides, side{i, true})
+			}
+			if markers[i].R == pr {
+				sides = append(sides, side{i, false})
+			}
+		}
+	default:
+		all(true, true)
+	}
+	for _, sd := range sides {
+		s := &sem[sd.mi]
+		set := func(field string) { touched[fmt.Sprintf("%d/%s", sd.mi, field)] = true }
+		dir := "reverse"
+		if sd.fwd {
+			dir = "forward"
+		}
+		switch name {
+		case "spacer":
+			if sd.fwd {
+				s.SpF = atoi(value)
+			} else {
+				s.SpR = atoi(value)
+			}
+			set(dir + "-spacer")
+		case "tag_delimiter":
+			if sd.fwd {
+				s.DelimF = delim(value)
+			} else {
+				s.DelimR = delim(value)
+			}
+			set(dir + "-tag-delimiter")
+		case "matching":
+			if sd.fwd {
+				s.MatchF = value
+			} else {
+				s.MatchR = value
+			}
+			set(dir + "-matching")
+		case "primer_mismatches", "mismatches":
+			if sd.fwd {
+				s.BudF = atoi(value)
+			} else {
+				s.BudR = atoi(value)
+			}
+			set(dir + "-mismatches")
+		case "tag_indels":
+			if sd.fwd {
+				s.TagIndF = atoi(value)
+			} else {
+				s.TagIndR = atoi(value)
+			}
+			set(dir + "-tag-indels")
+		case "indels":
+			if sd.fwd {
+				s.IndelF = value == "true"
+			} else {
+				s.IndelR = value == "true"
+			}
+			set(dir + "-indels")
+		default:
+			panic("c12applyParam: unknown parameter " + name)
+		}
+	}
+	return
+}
+
+func c12paramName(line []string) string {
+	if len(line) == 3 {
+		return line[0] + "(primer)"
+	}
+	return line[0]
+}
+
+func (h *c12H) enumParams(k *int) {
+	r := h.r
+	voc := c12paramVocabulary()
+	maxn := 2
+	if verifkit.Thorough() {
+		maxn = 3
+	}
+	for _, format := range []string{"csv", "csv-direct"} {
+		var rec func(seq [][]string)
+		rec = func(seq [][]string) {
+			if len(seq) > 0 {
+				h.eval(&c12Case{Class: "params", Format: format, Params: seq})
+			}
+			if len(seq) == maxn {
+				return
+			}
+			for _, l := range voc {
+				rec(append(append([][]string{}, seq...), l))
+			}
+		}
+		for _, l := range voc {
+			mine := r.Mine(*k)
+			*k++
+			if !mine || r.Expired() {
+				continue
+			}
+			rec([][]string{l})
+		}
+	}
+}
+
+// evalParams: the two-marker sheet with the given @param lines in front is read and compiled; every marker
+// field must be what the lines declare, applied in order.
+func (h *c12H) evalParams(c *c12Case) {
+	base := h.sheets["S2-two-markers"]
+	sh := &c12Sheet{Name: "params", Markers: base.Markers, Params: c.Params, NoEnum: true,
+		Sem: []c12Sem{c12defSem(), c12defSem()}}
+	last := map[string]string{}
+	for _, l := range c.Params {
+		for f := range c12applyParam(sh.Markers, sh.Sem, l) {
+			last[f] = c12paramName(l)
+		}
+	}
+	var lib *obingslibrary.NGSLibrary
+	var err error
+	crashed := ""
+	func() {
+		defer func() {
+			if x := recover(); x != nil {
+				crashed = c12crashText(x)
+			}
+		}()
+		if c.Format == "csv-direct" {
+			lib, err = obiformats.ReadCSVNGSFilter(strings.NewReader(sh.csvText()))
+		} else {
+			lib, err = obiformats.ReadNGSFilter(strings.NewReader(sh.csvText()))
+		}
+		if err == nil && lib != nil {
+			lib.ExtractMultiBarcodeSliceWorker()
+		}
+	}()
+	h.r.Eval(1)
+	h.r.Trans(int64(len(c.Params)))
+	h.r.Count("param_sheets", 1)
+	site := "ReadNGSFilter/csv"
+	if c.Format == "csv-direct" {
+		site = "ReadCSVNGSFilter/csv-direct"
+	}
+	names := ""
+	for _, l := range c.Params {
+		names += " @param," + strings.Join(l, ",")
+	}
+	if crashed != "" || err != nil || lib == nil {
+		h.r.Violate(site+"/param:"+c12paramName(c.Params[len(c.Params)-1])+"/rejects-valid-sheet", fmt.Sprintf("lines%s: %s %v", names, crashed, err), c)
+		return
+	}
+	for _, d := range c12diffFields(lib, sh) {
+		culprit := last[fmt.Sprintf("%d/%s", d.mi, d.field)]
+		if culprit == "" {
+			culprit = "none-declared"
+		}
+		h.r.Violate(site+"/param:"+culprit+"/wrong-"+d.field,
+			fmt.Sprintf("lines%s: marker %d (%s/%s): %s = %v, declared %v", names, d.mi, sh.Markers[max(d.mi, 0)].F, sh.Markers[max(d.mi, 0)].R, d.field, d.got, d.want), c)
+	}
 }
 
 func TestVerifC12(t *testing.T) {
@@ -1409,7 +2023,7 @@ func TestVerifC12(t *testing.T) {
 	log.StandardLogger().ExitFunc = func(int) { panic(c12exit{}) }
 	r := verifkit.New("C12")
 	defer r.Write()
-	h := &c12H{r: r, sheets: map[string]*c12Sheet{}, libs: map[string]obiseq.SeqSliceWorker{}}
+	h := &c12H{r: r, sheets: map[string]*c12Sheet{}, libs: map[string]obiseq.SeqSliceWorker{}, aloneCache: map[string][]string{}}
 	for _, s := range c12Sheets() {
 		h.sheets[s.Name] = s
 	}
@@ -1602,7 +2216,7 @@ func TestVerifC12CLI(t *testing.T) {
 	log.StandardLogger().ExitFunc = func(int) { panic(c12exit{}) }
 	r := verifkit.New("C12")
 	defer r.Write()
-	h := &c12H{r: r, sheets: map[string]*c12Sheet{}, libs: map[string]obiseq.SeqSliceWorker{}}
+	h := &c12H{r: r, sheets: map[string]*c12Sheet{}, libs: map[string]obiseq.SeqSliceWorker{}, aloneCache: map[string][]string{}}
 	for _, s := range c12Sheets() {
 		h.sheets[s.Name] = s
 	}
